@@ -439,7 +439,8 @@ ChunkSizingResult<IntegerT> adjustChunkSizing(
     if (range.isAuto()) {
       isStatic = true;
     } else if (!range.isStatic()) {
-      maxThreads = range.size() - wait;
+      // no more threads than items, but never more than the caller's bound
+      maxThreads = std::min<size_type>(maxThreads, range.size() - wait);
     }
   }
 
